@@ -133,7 +133,7 @@ def case(draw, tier):
     # one case in ten at scale: the data rows repeated past the sizes small examples never reach (100 fields after a
     # transpose, a 1000-row sample, a 2048-row buffer); the reference is computed on the big table itself
     if op not in ("melt_recast",) and len(c["table"]) > 1:
-        b = draw(scale.blowup(sizes=[101, 130, 257, 1001, 1025, 2049] if op != "pivot" else [101, 257, 1001], wide=False))
+        b = scale.derive(c, sizes=[101, 130, 257, 1001, 1025, 2049] if op != "pivot" else [101, 257, 1001], wide=False, tier=tier)
         if b:
             c["blowup"] = b
     return c
